@@ -158,7 +158,9 @@ CHECKS['C03'] = (
     'own symbol and letter tables (nwchem_symbols_roundtrip, nwchem_am_roundtrip); the two models are compared with the real writer (token lines equal) and the real '
     '_parse_electron_lines on written and on 13 kinds of malformed streams (verdict and data). The NWChem ECP section is modelled the same way: nwchem_ecp_readback (every element, electron count and potential comes back; the first, ul, potential gets (highest other momentum)+1), '
     'nwchem_ecp_faithful_iff (faithful exactly when the highest momentum is one above the next), nwchem_ecp_gap_limit / nwchem_ecp_single_limit (the format\'s limit proved on the model by kernel evaluation and '
-    'replayed on the library: known finding F14). Partial: the section parsers of the 13 other formats are not modelled; they are covered by the verified checker on explored inputs only.',
+    'replayed on the library: known finding F14). Gaussian94 (the other must-succeed format): g94_electron_roundtrip = _parse_electron_lines(model) of the written element block returns the shells unchanged, for every element 1..118 and rectangular shells with l < 26 (hij letters), '
+    'fewer than 400 primitives (g94_am_roundtrip, g94_count_roundtrip, g94_scale_ok), with the same correspondence on written and 16 kinds of malformed blocks. Partial: the Gaussian94 ECP block, rescaled exponents (scaling factor other than 1) and '
+    'the section parsers of the 12 other formats are not modelled; they are covered by the verified checker on explored inputs only.',
     BASE_NOTE + 'contiguous momenta up to l = 11 in generated inputs (positional formats cannot express a gap; letter classes of some readers end at l = 11).', '6/C03')
 
 CHECKS['C11'] = (
@@ -186,7 +188,8 @@ CHECKS['C17'] = (
     'Lean 4 theorems about the add_from_components transition on a path->content directory (nothing that existed is ever changed, for any request and '
     'any outcome, by induction over arbitrary sequences; a refused call writes nothing; existing element/table files and taken names are refused) + '
     'differential execution of the transition against curate.add_basis on random operation sequences',
-    'Proof (on the model): add_monotone, add_sequence_monotone, add_refused_noop, add_refuses_existing, add_refuses_taken_name, add_needs_components. '
+    'Proof (on the model): add_monotone, add_sequence_monotone, add_refused_noop, add_refuses_existing, add_refuses_taken_name, add_needs_components, '
+    'commit_writes_planned / add_writes_planned (after a successful call the planned element, table and — if new — metadata files are there with the planned content). '
     'Tie: directory after the model step = directory after the real step (file set and JSON content, index included) for every add_from_components step of '
     'the sequences. On the real directories after every step: earlier files byte-identical, index = its regeneration, retrieval and default version in a '
     'forked fresh process, reference forms, invalid input leaves the directory byte-for-byte unchanged. Partial: add_basis_from_dict / add_basis (reference '
